@@ -790,6 +790,56 @@ def forall_intro(vc, name, lo, hi, body, steps, var='i'):
     return u
 
 
+def row_sums_hook(H, G0, n, m, base_fn, base_step, k, name, P, D_P, summand, k_base, mean_of=None):
+    """proof-script hook for the k-th np.sum of the run, a ROW sum over an (m, n) array: code row sums = definitional sums P(r, n)
+    for every row (generic row r0, generic column t0; base_step proves base[r0, t0] = base_fn(r0, t0) for the array `base` given to
+    mean / var; LemmaSumExt does the sum).  The established universal fact is stored in H[k]."""
+    def h(vc, rec):
+        a, ps = rec['arr'], rec['ps']
+        if a.ndim != 2 or rec.get('axis') != 1 or not rec.get('axioms'):
+            raise OutOfSubset('expected a row sum')
+        rows, cols = a.shape
+        A_k = Univ(0, rows, lambda i: z3.And(ps(i, 0) == 0, forall_range(0, cols, lambda j: ps(i, j + 1) == ps(i, j) + a.at(i, j), 'j')), 'i')
+        if not z3.eq(A_k.q, rec['axioms'][0]):
+            raise OutOfSubset('proof script: np.sum axiom has an unexpected form')
+        base = vc.libcalls['np.sum'][k_base]['arr']
+        shp = fcut(vc, '%s: one row per sequence, n columns' % name,
+                   z3.And(rows == m, cols == n, base.shape[0] == m, base.shape[1] == n), G0)
+
+        def steps(r0, rng_r):
+            def t_split(t0, rng_t):
+                base_step(vc, base, r0, t0, G0 + rng_r + rng_t)
+            F_row = forall_intro(vc, 'row r of the array given to mean / var is the r-th sequence', 0, n, lambda t: base.at(r0, t) == base_fn(r0, t), t_split)
+            if mean_of is None:
+                F_sum = F_row                   # the array summed IS the base array and the summand IS the half chain
+                if not z3.eq(F_sum.q, forall_range(0, n, lambda t: a.at(r0, t) == summand(r0, t), 'i')):
+                    raise OutOfSubset('proof script: the array summed is not the base array')
+            else:
+                i1 = H[mean_of].inst(vc, r0)
+
+                def t_sum(t0, rng_t):
+                    i2 = F_row.inst(vc, t0)
+                    fcut(vc, '%s: summand at a generic index' % name, a.at(r0, t0) == summand(r0, t0), G0 + rng_r + rng_t + [i1, i2, shp])
+                F_sum = forall_intro(vc, '%s: summand of the code = summand of the definition' % name, 0, n, lambda t: a.at(r0, t) == summand(r0, t), t_sum)
+            d1 = fcut(vc, '%s: defining recursion of the definitional sum at this row' % name,
+                      prefix_def(lambda k_: P(r0, k_), n, lambda t: summand(r0, t)), [D_P.inst(vc, r0)] + rng_r)
+            ir = A_k.inst(vc, r0)
+            z0 = fcut(vc, '%s: code sum starts at 0' % name, ps(r0, 0) == 0, [ir, shp] + rng_r)
+            inner = Univ(0, cols, lambda j: ps(r0, j + 1) == ps(r0, j) + a.at(r0, j), 'j')
+            iq = fcut(vc, '%s: recursion of the code sum at this row (columns)' % name, inner.q, [ir, shp] + rng_r)
+
+            def t_rec(t0, rng_t):
+                fcut(vc, '%s: recursion of the code sum at a generic column' % name, ps(r0, t0 + 1) == ps(r0, t0) + a.at(r0, t0), [inner.inst(vc, t0), shp] + rng_t)
+            F_rec = forall_intro(vc, '%s: recursion of the code sum over [0, n)' % name, 0, n, lambda t: ps(r0, t + 1) == ps(r0, t) + a.at(r0, t), t_rec)
+            d2 = fcut(vc, '%s: recursion of the code sum at this row' % name, prefix_def(lambda k_: ps(r0, k_), n, lambda t: a.at(r0, t)), [z0, F_rec.q])
+            L = use(stmt_sum_ext(n, lambda t: a.at(r0, t), lambda t: summand(r0, t), lambda k_: ps(r0, k_), lambda k_: P(r0, k_)))
+            vc.assume(L)            # LemmaSumExt
+            fcut(vc, '%s: code row sum = definitional sum' % name, ps(r0, n) == P(r0, n), [L, d1, d2, F_sum.q] + G0)
+        H[k] = forall_intro(vc, '%s: code row sums = definitional sums, every row' % name, 0, m, lambda r: ps(r, n) == P(r, n), steps, var='r')
+    return h
+
+
+
 class _NaN:
     """numpy.nan as a RETURN VALUE of the analysed code: not a real number; no arithmetic is modelled on it"""
 
@@ -925,52 +975,13 @@ class GelmanRubin(Contract):
         sq = lambda v: v * v
         H = s.H = {}
 
+        def split_step(vc, base, r0, t0, hyps):
+            f1 = fcut(vc, 'split index arithmetic: (r n + t) div 2n = r div 2, (r n + t) mod 2n = (r mod 2) n + t',
+                      z3.And((r0 * n + t0) / (2 * n) == r0 / 2, (r0 * n + t0) % (2 * n) == z3.If(r0 % 2 == 0, t0, n + t0)), hyps)
+            fcut(vc, 'element (r, t) of the reshaped array is x[r div 2, (r mod 2) n + t]', base.at(r0, t0) == sp.split(r0, t0), hyps + [f1])
+
         def row_sums(k, name, P, D_P, summand, k_base, mean_of=None):
-            def h(vc, rec):
-                a, ps = rec['arr'], rec['ps']
-                if a.ndim != 2 or rec.get('axis') != 1 or not rec.get('axioms'):
-                    raise OutOfSubset('expected a row sum')
-                rows, cols = a.shape
-                A_k = Univ(0, rows, lambda i: z3.And(ps(i, 0) == 0, forall_range(0, cols, lambda j: ps(i, j + 1) == ps(i, j) + a.at(i, j), 'j')), 'i')
-                if not z3.eq(A_k.q, rec['axioms'][0]):
-                    raise OutOfSubset('proof script: np.sum axiom has an unexpected form')
-                base = vc.libcalls['np.sum'][k_base]['arr']
-                shp = fcut(vc, '%s: one row per half chain, n = N div 2 columns' % name,
-                           z3.And(rows == m, cols == n, base.shape[0] == m, base.shape[1] == n), G0)
-
-                def steps(r0, rng_r):
-                    def t_split(t0, rng_t):
-                        f1 = fcut(vc, 'split index arithmetic: (r n + t) div 2n = r div 2, (r n + t) mod 2n = (r mod 2) n + t',
-                                  z3.And((r0 * n + t0) / (2 * n) == r0 / 2, (r0 * n + t0) % (2 * n) == z3.If(r0 % 2 == 0, t0, n + t0)), G0 + rng_r + rng_t)
-                        fcut(vc, 'element (r, t) of the reshaped array is x[r div 2, (r mod 2) n + t]', base.at(r0, t0) == sp.split(r0, t0), G0 + rng_r + rng_t + [f1])
-                    F_row = forall_intro(vc, 'row r of the array given to mean / var is the r-th half chain', 0, n, lambda t: base.at(r0, t) == sp.split(r0, t), t_split)
-                    if mean_of is None:
-                        F_sum = F_row                   # the array summed IS the base array and the summand IS the half chain
-                        if not z3.eq(F_sum.q, forall_range(0, n, lambda t: a.at(r0, t) == summand(r0, t), 'i')):
-                            raise OutOfSubset('proof script: the array summed is not the base array')
-                    else:
-                        i1 = H[mean_of].inst(vc, r0)
-
-                        def t_sum(t0, rng_t):
-                            i2 = F_row.inst(vc, t0)
-                            fcut(vc, '%s: summand at a generic index' % name, a.at(r0, t0) == summand(r0, t0), G0 + rng_r + rng_t + [i1, i2, shp])
-                        F_sum = forall_intro(vc, '%s: summand of the code = summand of the definition' % name, 0, n, lambda t: a.at(r0, t) == summand(r0, t), t_sum)
-                    d1 = fcut(vc, '%s: defining recursion of the definitional sum at this row' % name,
-                              prefix_def(lambda k_: P(r0, k_), n, lambda t: summand(r0, t)), [D_P.inst(vc, r0)] + rng_r)
-                    ir = A_k.inst(vc, r0)
-                    z0 = fcut(vc, '%s: code sum starts at 0' % name, ps(r0, 0) == 0, [ir, shp] + rng_r)
-                    inner = Univ(0, cols, lambda j: ps(r0, j + 1) == ps(r0, j) + a.at(r0, j), 'j')
-                    iq = fcut(vc, '%s: recursion of the code sum at this row (columns)' % name, inner.q, [ir, shp] + rng_r)
-
-                    def t_rec(t0, rng_t):
-                        fcut(vc, '%s: recursion of the code sum at a generic column' % name, ps(r0, t0 + 1) == ps(r0, t0) + a.at(r0, t0), [inner.inst(vc, t0), shp] + rng_t)
-                    F_rec = forall_intro(vc, '%s: recursion of the code sum over [0, n)' % name, 0, n, lambda t: ps(r0, t + 1) == ps(r0, t) + a.at(r0, t), t_rec)
-                    d2 = fcut(vc, '%s: recursion of the code sum at this row' % name, prefix_def(lambda k_: ps(r0, k_), n, lambda t: a.at(r0, t)), [z0, F_rec.q])
-                    L = use(stmt_sum_ext(n, lambda t: a.at(r0, t), lambda t: summand(r0, t), lambda k_: ps(r0, k_), lambda k_: P(r0, k_)))
-                    vc.assume(L)            # LemmaSumExt
-                    fcut(vc, '%s: code row sum = definitional sum' % name, ps(r0, n) == P(r0, n), [L, d1, d2, F_sum.q] + G0)
-                H[k] = forall_intro(vc, '%s: code row sums = definitional sums, every row' % name, 0, m, lambda r: ps(r, n) == P(r, n), steps, var='r')
-            return h
+            return row_sums_hook(H, G0, n, m, sp.split, split_step, k, name, P, D_P, summand, k_base, mean_of)
 
         def vec_sum(k, name, P, D_P, summand, insts, after=None):
             def h(vc, rec):
@@ -1565,6 +1576,29 @@ def _cas_textbook2(arr):
     return (sp.Rational(n - 1, n) * Wv + Bv / n) / Wv
 
 
+def _cas_call(target, *args):
+    """the real function over sympy terms; a module-level helper that an edit extracted (unknown global of the target) is
+    taken from the SAME file of the tree, instrumented the same way and run in the same CAS globals (at most 4 helpers)"""
+    import re
+    from pyvc import cas
+    loc, code, stats = cas.compile_function(target)
+    g = cas.cas_globals()
+    exec(code, g)
+    for _ in range(5):
+        try:
+            return g[loc.node.name](*args)
+        except NameError as e:
+            m = re.match(r"name '(\w+)' is not defined", str(e))
+            if not m or m.group(1) in g:
+                raise
+            try:
+                code2 = cas.compile_function('%s::%s' % (target.split('::')[0], m.group(1)))[1]
+            except OutOfSubset:
+                raise e
+            exec(code2, g)
+    raise OutOfSubset('CAS run: too many helpers to resolve')
+
+
 class RhatCas(CasContract):
     """the REAL body run over sympy terms (numpy object arrays): R-hat^2 = textbook formula, invariance under x -> a x + b with
     symbolic a != 0, b, and under every permutation of the chains - for ALL real chain values at the listed shapes"""
@@ -1586,7 +1620,7 @@ class RhatCas(CasContract):
 
             def run(arr, what):
                 try:
-                    r = cas_run(self.target, args=(arr,))[0]
+                    r = _cas_call(self.target, arr)
                     return r ** 2, None
                 except OutOfSubset:
                     raise
@@ -1690,7 +1724,7 @@ def bounded(tier, seed):
     return b.run(tier, seed)
 
 
-_FAMILY = [('Sample.', 'sample'), ('BolfiSample', 'bolfi'), ('BOLFIRESample', 'bolfi'), ('gelman_rubin', 'diag'), ('lemma_rhat', None), ('lemma_', None),
+_FAMILY = [('eff_sample_size', 'ess'), ('Sample.', 'sample'), ('BolfiSample', 'bolfi'), ('BOLFIRESample', 'bolfi'), ('gelman_rubin', 'diag'), ('lemma_rhat', None), ('lemma_', None),
            ('numpy_to_python_type', 'save'), ('sample_object_to_dict', 'save')]
 _replay_cache = {}
 
